@@ -114,19 +114,20 @@ def _brief(l):
     return dict(k=l["k"], size=l["size"])
 
 
-def oracle_eval(ctx, ocases, shards=None):
-    """Evaluate with TLC; a shard that fails (32-bit overflow) is bisected, single failing cases are skipped and counted."""
+def oracle_eval(ctx, ocases, shards=None, depth=0):
+    """Evaluate with TLC; only a shard that fails (32-bit overflow aborts TLC) is split further; a single failing case is
+    skipped and counted."""
     if not ocases:
         return []
     shards = shards or core.NCPU
-    try:
-        return ctx.oracle("DeepLift_Oracle", "DeepLift_Oracle.cfg", ocases, shards=min(shards, len(ocases)), tag="-%d" % len(ocases))
-    except core.Machinery as e:
-        if "overflow" not in str(e).lower() and "Overflow" not in str(e):
-            if len(ocases) == 1:
-                raise
-        if len(ocases) == 1:
-            ctx.note("oracle skipped case %s (32-bit overflow in TLC)" % ocases[0]["id"])
-            return []
-        h = len(ocases) // 2
-        return oracle_eval(ctx, ocases[:h], shards=max(1, shards // 2)) + oracle_eval(ctx, ocases[h:], shards=max(1, shards // 2))
+    merged, failed, errs = ctx.oracle("DeepLift_Oracle", "DeepLift_Oracle.cfg", ocases, shards=min(shards, len(ocases)),
+                                      tag="-%d-%d" % (depth, len(ocases)), tolerant=True)
+    for e in errs:
+        if "verflow" not in e:
+            raise core.Machinery(e)
+    for part in failed:
+        if len(part) == 1:
+            ctx.note("oracle skipped case %s (32-bit overflow in TLC)" % part[0]["id"])
+        else:
+            merged += oracle_eval(ctx, part, shards=min(4, len(part)), depth=depth + 1)
+    return merged
